@@ -1,4 +1,5 @@
 import Dcg.Proofs.Escape
+import Dcg.Proofs.Docstring
 import Dcg.Model.Sites
 import Dcg.Gen.EscTables
 import Dcg.Gen.Templates
@@ -7,7 +8,7 @@ C10 — text taken from the input ends up as data, never as code.
 Only property theorems live here; helper lemmas are in Dcg/Proofs/Escape.lean.
 -/
 namespace Dcg.Props.C10
-open Dcg.Py.Lex Dcg.Model.Escape Dcg.Proofs.Escape Dcg.Model.Sites Dcg.Gen.EscTables Dcg.Gen.Templates
+open Dcg.Py.Lex Dcg.Model.Escape Dcg.Proofs.Escape Dcg.Proofs.Docstring Dcg.Model.Sites Dcg.Gen.EscTables Dcg.Gen.Templates
 
 /-! ### Enum / const values: `'` + translate(enumTable) + `'` -/
 
@@ -63,29 +64,53 @@ theorem pattern_partial (s rest : List Char) (hs : rawSafe '\'' patternTable s =
 
 example : rawSafe '\'' patternTable "^\\d+\\.[a-z]\\\\$".toList = true := by decide
 
+/-! ### Docstrings: template `"""` … `{{ description | escape_docstring | indent(4) }}` … `"""` -/
+
+/-- `model/base.py escape_docstring` is the chain of three `str.replace` calls that
+`Model.Escape.escDoc` models (regenerated from the source's AST on every run). -/
+theorem docstring_replaces_as_modelled : docstringReplaces = docstringReplacesModelled := by decide
+
+/-- FULL STRENGTH, all texts: the docstring written around an escaped description is ONE
+triple-quoted literal; its value is the template's white space around exactly the text (newlines
+normalised as Python does) and the lexer resumes right behind the closing quotes the template
+wrote — a description can neither end the docstring early nor smuggle in an escape sequence. -/
+theorem docstring_literal_exact (text pre post rest : List Char)
+    (hpre : ∀ c ∈ pre, c = ' ' ∨ c = '\n') (hpost : ∀ c ∈ post, c = ' ') :
+    scanLong '"' (pre ++ escDoc 0 text ++ '\n' :: post ++ ['"', '"', '"'] ++ rest) =
+      some (pre ++ normNL (text ++ ['\n']) ++ post, rest) :=
+  docstring_exact text pre post rest hpre hpost
+
+/-- non-vacuity: the former injection `""" ; import os ; """` and a trailing backslash -/
+example : scanLong '"' ("\n    ".toList ++ escDoc 0 "\"\"\"\nimport os\n\"\"\"\\".toList ++
+      '\n' :: "    ".toList ++ ['"', '"', '"'] ++ "\n".toList) =
+    some ("\n    ".toList ++ normNL ("\"\"\"\nimport os\n\"\"\"\\".toList ++ ['\n']) ++ "    ".toList,
+      "\n".toList) :=
+  docstring_literal_exact _ _ _ _ (by decide) (by decide)
+
 /-! ### Template sites -/
 
 /-- Every interpolation site of every template stands in exactly one lexical state, its
-expression is classified, and a value of that class may stand in that state — except the
-raw-input sites, which are exactly the reviewed ones below. -/
+expression (with its filters) is classified, and a value of that class may stand in that state.
+In particular schema text reaches a docstring only through `escape_docstring`, a TypedDict key
+only between single quotes, and there is NO site at which raw input is interpolated. -/
 theorem site_safe :
     sites.all (fun s => match s.states with
-      | [st] => allowed (classify s.expr) st || (classify s.expr == .rawInput)
+      | [st] => allowed (classify s.expr s.filters) st
       | _ => false) = true := by decide +kernel
 
-theorem raw_sites_enumerated :
-    (sites.filter (fun s => classify s.expr == .rawInput)).all
-      (fun s => match s.states with
-        | [st] => reviewedRaw.contains (s.expr, st)
-        | _ => false) = true := by decide +kernel
+/-- there are docstring sites, and every one of them goes through the escape filter -/
+theorem docstring_sites_escaped :
+    (sites.filter (fun s => classifyExpr s.expr == .rawInput)).all
+      (fun s => s.filters.contains "escape_docstring" && s.states == ["tdq"]) = true ∧
+    (sites.filter (fun s => classifyExpr s.expr == .rawInput)) ≠ [] := by decide +kernel
 
 /-- a `{{ line }}` site (raw input inside a `#` comment) only occurs in templates whose loop
 header takes the lines from `str.splitlines()`, which removes every line terminator — so the
 comment cannot be left. -/
 theorem comment_lines_from_splitlines :
-    (sites.filter (fun s => classify s.expr == .commentLine)).all (fun s =>
-      sites.any (fun h => h.template == s.template &&
-        h.expr == "for:lineinfield.docstring.splitlines()")) = true := by decide +kernel
+    (sites.filter (fun s => classifyExpr s.expr == .commentLine)).all (fun s =>
+      sites.any (fun h => h.template == s.template && reviewedLineLoops.contains h.expr)) = true := by
+  decide +kernel
 
 /-- the TypedDict key is interpolated between single quotes and nowhere else -/
 theorem key_site_quoted :
@@ -97,15 +122,8 @@ theorem templates_end_neutral :
     finals.all (fun f => f.2.all (fun st => st == "code" || st == "comment")) = true := by
   decide +kernel
 
-/-! ### Refutations kept for the pinned tree (known finding D4) -/
-
-/-- a description consisting of `"""` closes the docstring at once and leaves an opening `"""` -/
-theorem docstring_site_unsafe :
-    scanLong '"' (['"', '"', '"'] ++ ['"', '"', '"']) = some ([], ['"', '"', '"']) := by
-  simp [scanLong]
-
-/-- a description with a newline leaves the `#` comment of `Union.jinja2` -/
-theorem comment_site_unsafe :
+/-- what a newline does to a `#` comment (why comment sites must be fed line by line) -/
+theorem comment_ends_at_newline :
     comment ("a\nimport os".toList ++ ['\n']) = ("a".toList, "import os\n".toList) := by
   decide
 
